@@ -211,7 +211,7 @@ func runC01(r *vk.Run) {
 	// the same lines behind the Docker storage (model-free): 1..3 containers write the dataset's lines,
 	// terminated or not, sometimes two at one instant; the query over the daemon's logs must return what
 	// it returns over an in-memory storage holding exactly those records with the containers' labels
-	r.Phase("daemon", r.N(400, 30000), func(c *vk.Case) {
+	r.Phase("daemon", r.N(700, 40000), func(c *vk.Case) {
 		rng := c.Rng
 		format := formats[c.Idx%len(formats)]
 		n := rng.Range(4, 30)
@@ -220,6 +220,10 @@ func runC01(r *vk.Run) {
 		inv := make([]CSpec, nc)
 		for i := range inv {
 			inv[i] = CSpec{ID: fmt.Sprintf("id%d", i), Name: fmt.Sprintf("/c%d", i), Image: "img", State: "running", Labels: map[string]string{"tier": vk.Pick(rng, []string{"a", "b"})}}
+			if rng.Bool() {
+				// a key the daemon allows and the query language does not: addressed by its sanitised name
+				inv[i].Labels["com.example/team-name"] = vk.Pick(rng, []string{"web", "db"})
+			}
 		}
 		var mem []Rec
 		lastTS := make([]int64, nc)
@@ -245,6 +249,12 @@ func runC01(r *vk.Run) {
 		unknown, undecided := 0, 0
 		q := genLogQuery(rng, ds, genOpts{MaxStages: 3}, &unknown, &undecided)
 		q.Sel = []selMatcher{{Label: "container", Op: logql.OpRe, OpS: "=~", Value: "c.*"}}
+		if rng.Bool() {
+			ops := []selMatcher{{Op: logql.OpEq, OpS: "="}, {Op: logql.OpNotEq, OpS: "!="}, {Op: logql.OpRe, OpS: "=~"}, {Op: logql.OpNotRe, OpS: "!~"}}
+			m := vk.Pick(rng, ops)
+			m.Label, m.Value = vk.Pick(rng, []string{"com_example_team_name", "tier"}), vk.Pick(rng, []string{"web", "db", "a", ""})
+			q.Sel = append(q.Sel, m)
+		}
 		text := q.Text()
 		p := logRangeParams(n)
 		want, err1 := evalQuery(&MemQuerier{Recs: mem, ErrAfter: -1}, text, p)
@@ -288,6 +298,60 @@ func runC01(r *vk.Run) {
 		}
 	})
 	r.Require("daemon_cases_with_unterminated_lines", 200)
+
+	// a line is malformed as a whole, however late it breaks: JSON lines that are well-formed up to and
+	// including every field a stage asks for and broken after that are flagged like any other malformed
+	// line, so `__error__=""` excludes them and `__error__!=""` returns them (model-free: the expectation
+	// is the set of lines broken here)
+	r.Phase("brokentail", r.N(300, 30000), func(c *vk.Case) {
+		rng := c.Rng
+		n := rng.Range(4, 14)
+		var recs []Rec
+		broken := map[int64]bool{}
+		for i := 0; i < n; i++ {
+			line := fmt.Sprintf(`{"id":"r%d","level":%q,"status":%d,"user":"u%d"}`, i, vk.Pick(rng, []string{"info", "warn"}), 200+rng.Intn(3), rng.Intn(3))
+			ts := logT0 + int64(i+1)*1e9
+			if rng.Chance(1, 3) {
+				// (a complete object followed by further text is not among them: the stage can parse what it
+				// needs from such a line, and the statement does not say the rest must be looked at)
+				line = line[:len(line)-1] + vk.Pick(rng, []string{",}", `,"tail":}`, `,"tail"`, "", `,"x":tru}`, "]"})
+				broken[ts] = true
+			}
+			recs = append(recs, Rec{TS: ts, Line: line, Labels: map[string]string{"app": "x"}})
+		}
+		stage := vk.Pick(rng, []string{"| json", "| json level", "| json id, level", "| json user, id, level, status", `| json l="level"`, "| json level, nosuch"})
+		for _, want := range []bool{false, true} {
+			op := `=""`
+			if want {
+				op = `!=""`
+			}
+			query := `{app="x"} ` + stage + ` | __error__` + op
+			res, err := evalQuery(&MemQuerier{Recs: recs, ErrAfter: -1}, query, logRangeParams(n))
+			c.Eval(1)
+			det := map[string]any{"query": query, "records": recs}
+			if err != nil {
+				c.Fail("", query+" failed: "+err.Error(), det)
+				return
+			}
+			got := map[int64]bool{}
+			for _, st := range res.Streams {
+				for _, e := range st.Entries {
+					got[e.TS] = true
+				}
+			}
+			for _, rec := range recs {
+				if got[rec.TS] != (broken[rec.TS] == want) {
+					c.Fail("", fmt.Sprintf("%s: line %q (malformed: %v) returned: %v", query, rec.Line, broken[rec.TS], got[rec.TS]), det)
+					return
+				}
+			}
+			c.Count("broken_tail_queries", 1)
+		}
+		if len(broken) > 0 && len(broken) < n {
+			c.Nontrivial(fmt.Sprintf("brokentail|%d", c.Idx))
+		}
+	})
+	r.Require("broken_tail_queries", 400)
 	r.Require("distinct_nontrivial", 300)
 	r.Require("evaluations_with_offload", 1000)
 	r.Require("stage:distinct", 50)
